@@ -278,6 +278,9 @@ def case_F(c):
         inner_names = ("x", "y", "z")[:k]
         inner_items = [("stmt", "I1", [P("x")], [], [N("1")], "none"),
                        ("stmt", "I2", [P("y")], [("k", B("-", P("x"), B("*", N("3"), P("y"))))], [N("1"), N("0")], "sq")]
+        # pairs of arguments that differ only in a constant -1 / -2 (or in a factor -1 / -2)
+        inner_items.append(("stmt", "I4", [B("-", P("x"), N("1"))], [("l", U("-", P("y")))], [N("0")], "none"))
+        inner_items.append(("stmt", "I5", [B("-", P("x"), N("2"))], [("l", B("*", U("-", N("2")), P("y")))], [N("1")], "none"))
         if k == 3:
             inner_items.append(("stmt", "I3", [B("+", B("*", P("z"), N("4")), P("x"))], [], [N("0")], "none"))
         inner = dict(name="Inner", version="1.0", items=inner_items)
